@@ -112,7 +112,8 @@ def run(ctx, res):
     res.rule = ("pure: one real ParseQuery/ParseBasic/Getter.ServeHTTP evaluation per case; non-trivial = distinct case that is "
                 "not a plain literal-string value (values typed as string/number/constant/bytes/error, all path, form and "
                 "getter cases). stateful: one jhttp.Channel scenario per case; non-trivial = distinct (scenario, log) with at "
-                "least one Send and a Close")
+                "least one Send and a Close, or (family hc:bridge) with at least one client operation compared between "
+                "jhttp.Channel+Bridge and channel.Direct")
     _pure(ctx, res)
     try:
         from . import hclib
